@@ -177,13 +177,38 @@ def coqchk(pid: str, timeout: int = 1800) -> tuple[bool, dict]:
 
 
 def _avail_gb() -> int:
+    """memory this process may still take: the machine's MemAvailable, or what is left under the memory limit of the control group it runs in, whichever is smaller"""
+    avail = 48
     try:
         for line in open("/proc/meminfo"):
             if line.startswith("MemAvailable:"):
-                return int(line.split()[1]) // (1024 * 1024)
+                avail = int(line.split()[1]) // (1024 * 1024)
     except OSError:
         pass
-    return 48
+    try:
+        rel = [l.strip().split("::", 1)[1] for l in open("/proc/self/cgroup") if "::" in l]
+        d = Path("/sys/fs/cgroup") / (rel[0].lstrip("/") if rel else "")
+        while True:
+            mx = d / "memory.max"
+            if mx.exists():
+                v = mx.read_text().strip()
+                if v != "max":
+                    cur = int((d / "memory.current").read_text())
+                    avail = min(avail, max(0, int(v) - cur) // (1024 ** 3))
+            if d == Path("/sys/fs/cgroup") or d == d.parent:
+                break
+            d = d.parent
+    except Exception:
+        pass
+    try:                                    # control groups v1
+        rel = [l.strip().split(":", 2)[2] for l in open("/proc/self/cgroup") if l.split(":")[1:2] == ["memory"]]
+        d = Path("/sys/fs/cgroup/memory") / (rel[0].lstrip("/") if rel else "")
+        lim, cur = int((d / "memory.limit_in_bytes").read_text()), int((d / "memory.usage_in_bytes").read_text())
+        if lim < 1 << 60:
+            avail = min(avail, max(0, lim - cur) // (1024 ** 3))
+    except Exception:
+        pass
+    return avail
 
 
 CASE_HEADER = "From Coq Require Import ZArith List Bool Arith.\nImport ListNotations.\n"
